@@ -40,7 +40,14 @@ prop('C09',
      exhaustive=True)
 
 
+# records that validate the modelled standard-library / dependency pieces: a divergence there means the model of a
+# building block is wrong (or the dependency changed), which concerns every property whose check ran them
+LIB_KINDS = {'SHA', 'LOGID', 'B64D', 'B64E', 'PUINT', 'FMTD', 'VALIDNAME', 'NOTECHARS', 'CPUNM', 'VC'}
+
+
 def diverge_relevant(pid, d):
+    if d['kind'] in LIB_KINDS:
+        return True
     spec = PROPS[pid].get('diverge', {})
     if d['kind'] not in spec:
         return False
@@ -113,7 +120,7 @@ U_ALL = {'err', 'ret', 'post', 'ctr', 'oracle'}
 
 prop('C01',
      modules=['WitnessVerif.Props.C01'],
-     scenarios=lambda tier: hist_scenarios(tier),
+     scenarios=lambda tier: hist_scenarios(tier) + [sc('lib')],
      diverge={'U': {'accept', 'post', 'oracle'}, 'VC': None},
      nontrivial=lambda u: u.get('pre') not in ('-', None) and u.get('err') not in ('unknownLog', 'noValidSig'),
      rule='histories of Witness.Update against forking logs (explicit trees of 20 leaves with forks at 0,1,4,8,9; virtual piecewise-uniform trees up to 2^63) on in-memory, SQLite :memory: and SQLite file storage; monitor: cosigned checkpoints of a log have non-decreasing sizes, equal sizes equal roots, and never lie on two different branches of the ground-truth trees; non-trivial = a checkpoint is stored and the request authenticates',
@@ -217,3 +224,12 @@ prop('C15',
      nontrivial_line=lambda k, line: k == 'DS',
      rule='rest.Distributor.DistributeOnce against a stub witness whose answer per log is one of {valid, missing, wrong log key, no witness signature, invalid witness signature, corrupted, another log\'s checkpoint, two witness signatures} and a stub distributor service answering {200, 404, 500, connection reset, 307 redirect, 302 redirect, 201}: the 56 combinations enumerated for the first cases, then random draws over 1..6 logs and witness key names with characters that need escaping; requests received (path, method, body digest, redirect target) and the returned error compared with the model',
      assumptions=['net/http client behaviour on redirects is observed, not modelled beyond method preservation'])
+
+prop('C17',
+     modules=['WitnessVerif.Props.C17'],
+     scenarios=lambda tier: [sc('config'), sc('cfgmap'), sc('lib')],
+     diverge={'CF': None, 'CFM': None, 'CA': None},
+     nontrivial_line=lambda k, line: k in ('CF', 'CFM'),
+     rule='every entry of the embedded omniwitness/logs.yaml and of omniwitness/logs_test.yaml (working tree) is loaded through yaml.Unmarshal, config.NewLog, LogConfig.AsLogMap and its feeder is started for one cycle without network (start-up errors before the first request are failures); compared with the model; synthetic configurations (valid, ECDSA, malformed keys, duplicates) validate the model of NewVerifier/AsLogMap; the Lean tables are regenerated from the YAML files on every run and the coherence theorem is re-checked by kernel evaluation',
+     assumptions=['x509.ParsePKIXPublicKey and net/url are not modelled: covered by loading the shipped entries through the real functions'],
+     exhaustive=True)
